@@ -215,7 +215,13 @@ func execFork(p *Process, argv []string) error {
 	}*/
 
 	err := cmd.Wait()
-	if err != nil && !strings.HasPrefix(err.Error(), "signal:") && err.Error() != "wait: no child processes" {
+	if err != nil && strings.HasPrefix(err.Error(), "signal:") {
+		// ended by a signal: that doesn't warrant an error message (eg ctrl+c)
+		// but the command didn't succeed either
+		p.ExitNum = signalledExitNum(cmd.ProcessState)
+		return nil
+	}
+	if err != nil && err.Error() != "wait: no child processes" {
 		//mxdtR.Close()
 		debug.Log(err)
 		return err
